@@ -9,6 +9,7 @@ CONSTANTS
   RamChoices = {1,2,3}
   PoolChoices = {1,2,3}
   CollapseCrash = TRUE
+  Admissible = FALSE
 INVARIANT C01_ParentsDone
 INVARIANT C02_OneLiveContainer
 INVARIANT C02_StatesMatchContainers
